@@ -35,15 +35,35 @@ import (
 
 // Beh is one answer of the delivery target (or of the path to it).
 type Beh struct {
-	Kind string `json:"kind"` // status | transport | eof | deadline | deadline-bare | hang | policy | policy-bare | policy-url
-	Code int    `json:"code,omitempty"`
+	Kind   string `json:"kind"` // status | transport | eof | deadline | deadline-bare | hang | policy | policy-bare | policy-url
+	Code   int    `json:"code,omitempty"`
+	SlowMS int    `json:"slow_ms,omitempty"` // the answer arrives after that much virtual time
 }
 
 func (b Beh) String() string {
+	s := b.Kind
 	if b.Kind == "status" {
-		return fmt.Sprintf("%d", b.Code)
+		s = fmt.Sprintf("%d", b.Code)
 	}
-	return b.Kind
+	if b.SlowMS > 0 {
+		s += fmt.Sprintf("~%dms", b.SlowMS)
+	}
+	return s
+}
+
+// wait lets the answer take its (virtual) time; false: the request context ended first.
+func (b Beh) wait(ctx context.Context) bool {
+	if b.SlowMS <= 0 {
+		return true
+	}
+	t := time.NewTimer(time.Duration(b.SlowMS) * time.Millisecond)
+	defer t.Stop()
+	select {
+	case <-t.C:
+		return true
+	case <-ctx.Done():
+		return false
+	}
 }
 
 func st(code int) Beh { return Beh{Kind: "status", Code: code} }
@@ -55,6 +75,9 @@ const (
 
 // directResult turns a behaviour into the dispatcher.Result an in-memory Deliverer answers with.
 func directResult(ctx context.Context, b Beh, rawURL string) dispatcher.Result {
+	if !b.wait(ctx) {
+		return dispatcher.Result{Err: &url.Error{Op: "Post", URL: rawURL, Err: ctx.Err()}}
+	}
 	switch b.Kind {
 	case "status":
 		return dispatcher.Result{StatusCode: b.Code}
@@ -93,6 +116,9 @@ func (scriptTransport) RoundTrip(req *http.Request) (*http.Response, error) {
 	if req.URL.Path == "/elsewhere" {
 		// the place 3xx answers point to: a redirect that is followed although `redirects off` ends in a 2xx here
 		return &http.Response{StatusCode: 200, Status: "200 OK", Proto: "HTTP/1.1", ProtoMajor: 1, ProtoMinor: 1, Header: http.Header{}, Body: http.NoBody, Request: req}, nil
+	}
+	if !b.wait(req.Context()) {
+		return nil, req.Context().Err()
 	}
 	switch b.Kind {
 	case "status":
@@ -487,6 +513,7 @@ type Spec struct {
 	StopAfter  int     `json:"stop_after"`  // >0: stop after that many settled sends
 	Requeue    int     `json:"requeue"`     // how often dead messages are requeued from the DLQ (new cycles)
 	MaxPerLife int     `json:"max_per_life"` // runaway guard (sends per message and cycle)
+	DrainAtMS  int     `json:"drain_at_ms"`  // >0: Drain is called at that virtual time instead of at the end of the history
 }
 
 type Final struct {
@@ -622,6 +649,10 @@ func runHistory(t *testing.T, sp Spec) Result {
 		d.Start()
 
 		for round := 0; ; round++ {
+			if sp.DrainAtMS > 0 {
+				time.Sleep(time.Duration(sp.DrainAtMS) * time.Millisecond)
+				break
+			}
 			select {
 			case <-rec.doneCh():
 			case <-time.After(horizon):
